@@ -59,6 +59,10 @@ def run(ctx):
             law("signal-and-noise-filtered-alike", Fe.noise + 10, Fy + 10)
             law("ndarray-and-container-agree", Fe.signal + 10, Fx + 10)
             law("constant-passes-unchanged", LPF(np.full(n, 2.5), BW, order).signal, np.full(n, 2.5), tol=10 ** 6)
+            xi = np.round(x * 50)
+            law("ndarray-and-container-agree", LPF(xi.astype(np.int64), BW, order).signal + 1000, LPF(xi, BW, order).signal + 1000)
+            tiny = rnd.choice([1e-9, 1e-12, 1e6])
+            law("linear", LPF(tiny * x, BW, order).signal / tiny + 10, Fx + 10)
             events.append({"kind": "shape", "same": bool(type(Fe) is electrical_signal and Fe.len() == n and Fe.noise.shape == (n,))})
             meta.append(("shape", "LPF"))
             if n >= 257:
@@ -77,6 +81,10 @@ def run(ctx):
             Bo = BPF(mk(cx, cy), BWo, order)
             law("signal-and-noise-filtered-alike", Bo.noise + 10, By + 10)
             law("complex-envelope-kept", BPF(mk(1j * cx), BWo, order).signal + 10, 1j * Bx + 10)
+            tiny = rnd.choice([1e-9, 1e-12, 1e6])
+            bt = BPF(mk(tiny * cx, tiny * cy), BWo, order)
+            law("linear", bt.signal / tiny + 10, Bx + 10)
+            law("signal-and-noise-filtered-alike", bt.noise / tiny + 10, By + 10)
             if npol == 2:
                 law("polarisations-independent", Bo.signal[1] + 10, BPF(optical_signal(cx[1]), BWo, order).signal + 10)
             law("constant-passes-unchanged", np.atleast_2d(BPF(mk(np.full((npol, n), 1 - 2j)), BWo, order).signal), np.full((npol, n), 1 - 2j), tol=10 ** 6)
